@@ -14,5 +14,6 @@ pub mod report;
 pub mod rng;
 pub mod routelab;
 pub mod shutlab;
+pub mod staticlab;
 pub mod util;
 pub mod wsref;
